@@ -509,8 +509,8 @@ func IfOf(b *ssa.BasicBlock) *ssa.If {
 func Returns(fn *ssa.Function) []*ssa.Return {
 	var out []*ssa.Return
 	for _, b := range fn.Blocks {
-		if len(b.Instrs) == 0 {
-			continue
+		if len(b.Instrs) == 0 || b == fn.Recover {
+			continue // the recover block is go/ssa's landing pad for a recovered panic, not a source-level return
 		}
 		if r, ok := b.Instrs[len(b.Instrs)-1].(*ssa.Return); ok {
 			out = append(out, r)
